@@ -980,7 +980,7 @@ def build_advi(arg):
             parameters.extend(
                 (
                     f'{branch_model_id}.rates.prior.mean',
-                    f'{branch_model_id}.rates.prior.scale',
+                    f'{branch_model_id}.rates.prior.stdev',
                 )
             )
         else:
@@ -1001,11 +1001,16 @@ def build_advi(arg):
             parameters.append('coalescent.growth')
         if arg.coalescent == 'piecewise-exponential':
             parameters.append('coalescent.growth')
-    elif arg.birth_death is not None:
+    elif arg.birth_death == 'bdsk':
         parameters.append("bdsk.R")
         parameters.append("bdsk.delta")
         parameters.append("bdsk.rho")
         parameters.append("bdsk.origin")
+    elif arg.birth_death == 'constant':
+        parameters.append("constant.lambda")
+        parameters.append("constant.mu")
+        parameters.append("constant.rho")
+        parameters.append("constant.origin")
 
     if arg.model == 'SRD06':
         for tag in ('12', '3'):
